@@ -78,7 +78,7 @@ let eval inp obs =
   let groups = split_on ";" inp in
   let head = List.hd groups in
   let probes = (match groups with [_; p] -> List.map n_of_tok p | _ -> []) in
-  match head with
+  match (match inp with ("S" | "U") :: _ -> inp | _ -> head) with
   | "B" :: _ :: rest ->
     let ops = pairs_of rest in
     let model_obs = (match build ops with None -> ["PANIC"] | Some vs -> vs_obs vs probes) in
@@ -154,6 +154,55 @@ let eval inp obs =
     { default_verdict with model_obs; spec_ok = Some (spec obs); model_spec_ok = spec model_obs;
       nontrivial = List.length (eff_pairs ops) >= 2 }
     end
+  | "S" :: _mode :: rest0 ->
+    (* S <mode> ; set1 ; set2 ; ... ; P probes : successive decodes of the encodings of set1, set2, ...
+       into ONE reused target (mode direct / epoch wrapper with a non-nil pointer / stream).
+       obs per step:  STEP <VS of the target> RAW <re-encoding of the target> *)
+    let gs = List.filter (fun g -> g <> []) (split_on ";" rest0) in
+    let sets = List.filter (fun g -> List.hd g <> "P") gs in
+    let probes = (match List.filter (fun g -> List.hd g = "P") gs with
+                  | [p] -> List.map n_of_tok (List.tl p) | _ -> []) in
+    let sets = List.map (fun g -> pairs_of (List.tl g)) sets in   (* each set starts with the token "T" *)
+    let rec run t = function
+      | [] -> []
+      | ops :: r ->
+        (match build ops with
+         | None -> ["PANIC"]
+         | Some vs ->
+           (match decode_step t (encode_rlp vs) with
+            | (t', DOk _) -> ("STEP" :: vs_obs t' probes) @ ["RAW"; hex_of_bytes (encode_rlp t')] @ run t' r
+            | (_, DErr) -> ["ERR"]
+            | (_, DPanic) -> ["PANIC"])) in
+    let model_obs = run empty_validators sets in
+    (* spec: the k-th observation is the canonical form of the k-th set alone *)
+    let spec o =
+      let steps = List.filter (fun g -> g <> []) (split_on "STEP" o) in
+      List.length steps = List.length sets
+      && List.for_all2 (fun st ops ->
+           (match sections ["RAW"] st with
+            | (_, vs_part) :: _ -> small_spec ops probes vs_part
+            | [] -> false)) steps sets in
+    { default_verdict with model_obs; spec_ok = Some (spec obs); model_spec_ok = spec model_obs;
+      nontrivial = List.length sets >= 2 }
+  | "U" :: rest0 ->
+    (* U ; T set1 ; T set2 ; P probes : one builder: Set set1, Build -> v1, Set set2 on the SAME builder,
+       v1 observed again, Build -> v2; then v1.Builder() mutated and v1.Copy(): v1 must not change.
+       obs: V1 vs V1AGAIN vs V2 vs V1FINAL vs COPY vs *)
+    let gs = List.filter (fun g -> g <> []) (split_on ";" rest0) in
+    let sets = List.map (fun g -> pairs_of (List.tl g)) (List.filter (fun g -> List.hd g = "T") gs) in
+    let probes = (match List.filter (fun g -> List.hd g = "P") gs with
+                  | [p] -> List.map n_of_tok (List.tl p) | _ -> []) in
+    (match sets with
+     | [s1; s2] ->
+       let o ops = (match build ops with None -> ["PANIC"] | Some vs -> vs_obs vs probes) in
+       let model_obs = ("V1" :: o s1) @ ("V1AGAIN" :: o s1) @ ("V2" :: o (s1 @ s2)) @ ("V1FINAL" :: o s1) @ ("COPY" :: o s1) in
+       let spec ob =
+         let s = sections ["V1"; "V1AGAIN"; "V2"; "V1FINAL"; "COPY"] ob in
+         small_spec s1 probes (sec "V1" s) && small_spec s1 probes (sec "V1AGAIN" s)
+         && small_spec (s1 @ s2) probes (sec "V2" s) && small_spec s1 probes (sec "V1FINAL" s)
+         && small_spec s1 probes (sec "COPY" s) in
+       { default_verdict with model_obs; spec_ok = Some (spec obs); model_spec_ok = spec model_obs }
+     | _ -> failwith "bad U case")
   | _ -> failwith "bad case"
 
 let () = run eval
